@@ -80,9 +80,17 @@ theorem good_enumFlat {e : Schema → Value → Option Item} {d : Schema → Ite
       obtain ⟨w, hl, vs', dd, ss, nn⟩ := encArr_good fs hgood false 0 fields xs (by omega) hi hr hx
       have hfv := findVariant_get vs 0 pos n fs hd hg
       simp only [Nat.zero_add] at hfv
+      have hunit : (fs.isEmpty && !xs.isEmpty) = false := by
+        cases fs with
+        | cons _ _ => simp
+        | nil =>
+          cases fields with
+          | nil => simp [encArr] at hx; subst hx; simp
+          | cons _ _ => simp [encArr] at hx
       refine ⟨mkArray_wf _ (by simp; omega) (by simp [wfList, mkUInt_wf n (by omega), w]), by simp [mkArray_typeOf],
         .variant pos vs', ?_, by simp [Value.strip, ss], fun x => by rw [nn (fun p hp => x (n, fs) hmem p hp)]⟩
-      simp [decEnumFlat, mkArray, minHead_major, mkUInt_int n (by omega), intInBits_nat n hn, hfv, dd]
+      simp only [decEnumFlat, mkArray, minHead_major, mkUInt_int n (by omega), intInBits_nat n hn, hfv, if_true, hunit]
+      simp [dd]
 
 theorem good_enumIdx (vs : List Nat) (nr : Prop) (hd : distinctNats vs = true) (hv : ∀ n, n ∈ vs → n < 2 ^ 63) :
     Good (encEnumIdx vs) (decEnumIdx vs) [.u8, .u16, .u32, .u64] nr := by
